@@ -760,17 +760,50 @@ def _alias_build(alias, rep, ktype, keys_abs):
     return rec["id"], rec, readr, ktype
 
 
+ALIAS_CPU_LIMIT = 10.0      # seconds of CPU time for one sort of at most a few hundred elements (milliseconds are normal)
+_ALIAS_HUNG = collections.Counter()
+
+
+class DidNotTerminate(Exception):
+    pass
+
+
 def alias_obs(alias, rep, ktype, keys_abs):
+    """one aliased call; a sort that is still running after ALIAS_CPU_LIMIT seconds of CPU time is recorded as an error
+    (exchanges made array by array can undo each other under aliasing and loop for ever); after two such calls of an alias
+    mode the remaining cases of that mode are not run (None)"""
+    import signal
     from esutil import algorithm as al
+    if _ALIAS_HUNG[alias] >= 2:
+        return None
     k, v, read, ktype = _alias_build(alias, rep, ktype, keys_abs)
+
+    def onalarm(signum, frame):
+        raise DidNotTerminate()
+    prev = signal.signal(signal.SIGVTALRM, onalarm)
     try:
-        al.quicksort_keyvalue(k, v)
+        signal.setitimer(signal.ITIMER_VIRTUAL, ALIAS_CPU_LIMIT)
+        try:
+            al.quicksort_keyvalue(k, v)
+        finally:
+            signal.setitimer(signal.ITIMER_VIRTUAL, 0)
         ko, vo = read()
         o = {"err": "none", "keys": ko, "vals": [int(x) for x in vo]}
+    except DidNotTerminate:
+        _ALIAS_HUNG[alias] += 1
+        o = {"err": "DidNotTerminate", "keys": [], "vals": []}
     except Exception as e:  # noqa
         o = {"err": _err(e), "keys": [], "vals": []}
+    finally:
+        signal.signal(signal.SIGVTALRM, prev)
     o["alias"], o["rep"], o["ktype"] = alias, rep, ktype
     return o
+
+
+def _alias_note_hung(ctx):
+    if _ALIAS_HUNG:
+        ctx.log("aliased sorts that did not terminate within %.0f s of CPU time: %s (remaining cases of those modes not run)"
+                % (ALIAS_CPU_LIMIT, dict(_ALIAS_HUNG)))
 
 
 def _alias_case(alias, keys_abs):
@@ -823,8 +856,10 @@ def part_sortalias(ctx):
         reps = ALIAS_REPS[cse["alias"]]
         obs = [alias_obs(cse["alias"], reps[(i // 4 + t) % len(reps)], ALIAS_KTYPE_LIST[(i // 4 + 2 * t) % len(ALIAS_KTYPE_LIST)], cse["keys"])
                for t in range(min(2, len(reps)))]
-        recs.append({"id": i + 1, "c": _alias_case(cse["alias"], cse["keys"]), "obs": obs})
-        ctx.count({"sortalias": [cse["alias"], cse["keys"]]})
+        obs = [o for o in obs if o is not None]
+        if obs:
+            recs.append({"id": i + 1, "c": _alias_case(cse["alias"], cse["keys"]), "obs": obs})
+            ctx.count({"sortalias": [cse["alias"], cse["keys"]]})
     # seeded larger arrays through every aliased form
     nrand = 40 if ctx.quick else 400
     rng = random.Random(ctx.seed * 15485863 + 5)
@@ -833,16 +868,19 @@ def part_sortalias(ctx):
         for alias in ("same", "field", "sibling"):
             nid += 1
             reps = ALIAS_REPS[alias]
-            recs.append({"id": nid, "c": _alias_case(alias, a),
-                         "obs": [alias_obs(alias, reps[j % len(reps)], ALIAS_KTYPE_LIST[(j // 2) % len(ALIAS_KTYPE_LIST)], a)]})
-            ctx.count({"sortalias": [alias, a], "shape": shape})
-    probe = next(r for r in recs if r["obs"][0]["alias"] == "field" and len(set(r["c"]["keys"])) >= 3 and r["c"]["keys"] != sorted(r["c"]["keys"]))
+            o = alias_obs(alias, reps[j % len(reps)], ALIAS_KTYPE_LIST[(j // 2) % len(ALIAS_KTYPE_LIST)], a)
+            if o is not None:
+                recs.append({"id": nid, "c": _alias_case(alias, a), "obs": [o]})
+                ctx.count({"sortalias": [alias, a], "shape": shape})
+    probe = next(r for r in recs if r["obs"][0]["alias"] == "field" and len(set(r["c"]["keys"])) >= 3 and r["c"]["keys"] != sorted(r["c"]["keys"])
+                 and r["obs"][0]["err"] == "none")
     ctx.sample({"sort_alias_case": probe["c"], "observed": probe["obs"][0]})
     # binding self-test: the key column permuted twice (what the whole-array mechanism leaves) rides along
     S = 10 ** 6 + 1
     good = probe["obs"][0]
     n = len(good["keys"])
     bad = dict(good, keys=[good["keys"][(i + 1) % n] for i in range(n)])
+    _alias_note_hung(ctx)
     badrec = {"id": S, "c": probe["c"], "obs": [bad]}
     rej = _judge_alias(ctx, recs + [badrec], "judge aliased key-value sorts (QuicksortTrace through the views of QuicksortAlias; a corrupted "
                        "copy - the key column permuted once more - rides along as binding self-test)", selftest=(S,))
@@ -2191,7 +2229,8 @@ def run(ctx):
         "sorts at scale run at the interpreter's default recursion limit (1000): a RecursionError on ordered input is a violation",
         "aliased key-value sorts: the same array twice and a column of the values table as keys have a defined result (every pair "
         "(x, x) / every row intact and ordered by its key column); partially overlapping slices (keys[i] and values[i-1] one cell) "
-        "have no reading of 'pairs kept together' and are outside the quantifier",
+        "have no reading of 'pairs kept together' and are outside the quantifier; an aliased sort of at most a few hundred elements "
+        "still running after 10 s of CPU time is recorded as not terminating (a violation)",
         "chunk sessions: results of isplit are the caller's (overwriting them must not change later calls nor other results); "
         "whether splitarray's chunks are views or copies is not constrained (they are judged against the array at the time of the "
         "call only); a result that refuses to be overwritten is a stutter step",
